@@ -1,4 +1,5 @@
 import PPProofs.Props.C07
+import PPProofs.Props.C07Depth
 #print axioms PP.Parse.errorstop_any_failure_is_syntax
 #print axioms PP.Parse.errorstop_raises_at_failing_loc
 #print axioms PP.Parse.errorstop_switches_on
@@ -15,3 +16,8 @@ import PPProofs.Props.C07
 #print axioms PP.Parse.notany_treats_fatal_as_nonmatch
 #print axioms PP.Parse.or_fatal_only_if_none_matched
 #print axioms PP.Parse.or_raises_fatal_when_none_matched
+#print axioms PP.Parse.step_fail
+#print axioms PP.Parse.fatal_propagates_exact
+#print axioms PP.Parse.fatal_propagates_any_depth
+#print axioms PP.Parse.fatal_class_preserved_without_stop
+#print axioms PP.Parse.errorstop_any_depth
